@@ -40,6 +40,8 @@
 
 /* R21: end of the one arbitrary iteration of a loop with invariant `true` */
 #define VP_ITERATION_END __CPROVER_assume(0)
+/* call-free integrality test (contracts / invariants may not call floor/ceil); equals floor(x) == ceil(x) for every non-NaN double */
+#define VP_ISINT(x) ((x) >= 9.2e18 || (x) <= -9.2e18 || (x) == (double)(long long)(x))
 /* R19 */
 extern int vp_one;
 
